@@ -154,7 +154,7 @@ func runExport(rep any, nilReport bool, lvl byte, text string, mode string, chun
 }
 
 func refRender(rep any, text string) (bool, string) {
-	t, err := template.New("ref").Parse(text)
+	t, err := template.New("Repost").Parse(text) // same root name as the library uses: a template may refer to it
 	if err != nil {
 		return false, ""
 	}
@@ -171,7 +171,11 @@ var randomTemplates = []string{"", "plain text", "{{.Vector}}", "{{.BaseScore}} 
 	"{{.Version | printf \"%s-%s\" \"a\"}}", "{{with .NoField}}x{{end}}", "{{.}}", "{{nil}}", "{{1 | .Vector}}", "{{call .Vector}}", "{{eq .Version \"3.1\"}}",
 	"{{if eq .Version \"3.0\"}}three-zero{{else}}other{{end}}", "{{ .Vector }}\n{{- .Version -}}\n", "{{\"\\\"quoted\\\"\"}}", "{{`raw`}}", "{{.Vector}", "{.Vector}}", "{{end}}", "{{else}}",
 	"{{if}}x{{end}}", "{{range}}", "{{ .BaseReport }}", "{{ .TemporalReport.BaseReport.Vector }}", "{{ .BaseReport.Vector }}|{{ .Vector }}", "日本語 {{.SeverityValue}} テンプレート",
-	"{{template \"Repost\" .}}", "{{block \"b\" .}}{{.Vector}}{{end}}", "{{break}}", "{{continue}}", "{{.SeverityName}}={{.SeverityValue}};{{.TemporalReport.SeverityValue}}"}
+	"{{template \"Repost\" .}}", "{{block \"b\" .}}{{.Vector}}{{end}}",
+	// templates that share sub-template names: each export must be independent of the others
+	"{{define \"sev\"}}[{{.SeverityValue}}]{{end}}{{.BaseScore}} {{template \"sev\" .}}", "{{.Vector}} {{template \"sev\" .}}",
+	"{{define \"sev\"}}<{{.SeverityName}}>{{end}}{{.BaseScore}} {{template \"sev\" .}}", "{{block \"sev\" .}}default{{end}}", "{{template \"b\" .}}",
+	"{{define \"x\"}}Y{{end}}{{template \"x\"}}", "{{template \"x\"}}", "{{define \"Repost\"}}self{{end}}", "{{break}}", "{{continue}}", "{{.SeverityName}}={{.SeverityValue}};{{.TemporalReport.SeverityValue}}"}
 
 func cmdTmpl(args []string) {
 	fs := flag.NewFlagSet("tmpl", flag.ExitOnError)
@@ -283,6 +287,29 @@ func cmdTmpl(args []string) {
 			}
 		}
 	})
+	// history pass: the hand-written templates exported one after the other in one goroutine,
+	// forwards, backwards and forwards again: every export must equal a fresh text/template run
+	for pass := 0; pass < 3; pass++ {
+		for k := 0; k < len(ts)-grammar; k++ {
+			i := grammar + k
+			if pass == 1 {
+				i = len(ts) - 1 - k
+			}
+			text := unescape(ts[i].Src)
+			if len(text) > 2000 {
+				continue
+			}
+			r := reps[(k+pass)%len(reps)]
+			refOk, refOut := refRender(r.rep, text)
+			ev := &tmplEvent{K: "tmpl", Lvl: string(r.lvl), Lang: r.lang, S: r.s, Rep: r.flat, Segs: []map[string]any{}, Text: asciiSafe(text),
+				Mode: fmt.Sprintf("string (history pass %d, position %d)", pass, k), FailAt: -1, RefOk: refOk, RefOut: refOut}
+			ev.Ok, ev.Out, ev.GotReader, ev.Sent, ev.Panic = runExport(r.rep, false, r.lvl, text, "string", 0, -1, false)
+			if ev.Sent == nil {
+				ev.Sent = []string{}
+			}
+			recs[0].Add(evBody(ev), "Export (history pass)")
+		}
+	}
 	all := NewRecorder()
 	for _, r := range recs {
 		all.Merge(r)
